@@ -30,6 +30,16 @@ PROPS = {
                  "three real stand-alone partitions fed byte-identical entries, one restoring a snapshot at every cut (into a fresh or a used replica)"],
         assumptions=[GO_RUNTIME, "graph equality between replicas is not claimed (legitimately non-deterministic); contents, counters and outcomes are"],
     ),
+    "C08": dict(
+        module="Anndb.Props.C08",
+        engines=[dict(name="codec", quick=["states=120"], thorough=["states=2500"]),
+                 dict(name="hnsw", quick=["exact=60", "wide=60", "props=C08"], thorough=["exact=800", "wide=800", "props=C08"])],
+        trusted=["byte-format model (Model/Codec.lean) tied to the real Save by decode/re-encode/view equality on every saved stream, and to the real Load by accept/reject agreement on truncated streams (engine codec)",
+                 "shape facts Generated.codecBareReads (no bare Read in the loaders) and the metadata length-field widths",
+                 "encoding/binary, io.ReadFull, bytes.Buffer"],
+        assumptions=[GO_RUNTIME, "metadata within the format's bounds (<= 65535 entries, keys <= 255 bytes, values <= 65535 bytes); beyond them the length fields truncate (known finding C08/metadata-length-truncation)",
+                     "real memory consumption is not measured; the bound is proved on the model's allocation counts"],
+    ),
     "C10": dict(
         module="Anndb.Props.C10",
         engines=[dict(name="routing")],
